@@ -2246,6 +2246,12 @@ class DiskObjectStore(PackBasedObjectStore):
                 # The objects are already packed; drop the temporary pack we
                 # were about to move in rather than leaking it into pack_dir.
                 _remove_readonly(path)
+                # These objects have just been written (again). Refresh the
+                # mtime of the pack that is kept, as git does, so that
+                # age-based pruning does not take them for old: the caller
+                # may go on to delete newer loose copies of them.
+                with suppress(OSError):
+                    os.utime(pack._data_path, None)
                 return pack
 
         target_pack_path = pack_base_name + ".pack"
